@@ -6,7 +6,7 @@ import json, os, sys
 variant = sys.argv[1] if len(sys.argv) > 1 else ""
 HINTS = {
     "": "",
-    "indirect": " For this assignment prefer a change in a file that is NOT among the code locations listed above but that they depend on (helper packages, interop models and channels, rendering, middleware, metering, telemetry, supervisor model, application context) - a change whose effect reaches the property only through another component; or a change to the error/slow path of an operation rather than to its normal path (what happens when a write fails, a peer is slow, a process is already gone, a channel is full, a header is missing). It must still need something specific to manifest.",
+    "indirect": " For this assignment prefer a change in a file that is NOT among the code locations listed above but that they depend on (helper packages, interop models and channels, rendering, middleware, metering, telemetry, supervisor model, application context) - a change whose effect reaches the property only through another component; or a change to the error/slow path of an operation rather than to its normal path (what happens when a write fails, a peer is slow, a process is already gone, a channel is full, a header is missing). Prefer a site that is not the most obvious one for it - a helper, an error or slow path, something two steps away. It must still need something specific to manifest.",
     "deep": " For this assignment prefer a violation that needs a HISTORY or a SCHEDULE rather than a special input value: e.g. something that only shows after an earlier failure/reset/timeout of a particular kind, on a second or third generation of the environment, when two events race in a particular order, or when a fault (process exit, slow peer, error report) arrives at a particular point of a protocol. Prefer a site that is not the most obvious one for this property.",
 }
 # round 4: one clause of each property that no earlier seeded change was aimed at (verbatim from the statement)
@@ -33,8 +33,30 @@ CLAUSES = {
   "C19": "takes the whole process group with it [...] fails with an error for unknown names, past deadlines or if the process outlives the deadline; Terminate delivers SIGTERM to the group without waiting",
   "C20": "An X-Ray error cause is passed on only as valid JSON of at most 64 KiB whose fields are the original ones, possibly shortened; causes without any recognised field or with invalid JSON are dropped [...] fixed once features were appended",
  },
+ "b": {
+  "C01": "Whatever body the runtime posts as the response (or error) for that request id is returned unchanged to the caller of that invocation and to nobody else, and each invocation produces exactly one outcome",
+  "C02": "ids of earlier invocations (including ones that timed out, failed or were reset) [...] are refused with a client error. A refused submission has no effect on what any caller receives [...] or on later invocations",
+  "C03": "no invocation is delivered to the runtime or to any extension until the runtime and every extension whose registration was accepted have asked for their next event [...] if all parties do arrive initialisation completes, whatever the arrival order",
+  "C04": "The invocation is not reported complete, and the next invocation is not delivered to anyone, until the runtime has posted its response and asked for next and every INVOKE-subscribed extension has asked for next. Events reach each party in invocation order.",
+  "C05": "in whichever phase the time runs out (extension registration, runtime init, waiting for the response, waiting for extensions) [...] the next invocation is served by freshly started processes",
+  "C06": "fails to launch [...] a fault during initialisation that the runtime did not report itself yields the failure status only. The environment is then torn down and the following invocation is served by new processes.",
+  "C07": "The body a caller receives is always either the payload the runtime posted for that invocation or a platform-generated error or timeout message.",
+  "C08": "no registration, subscription [...] barrier arrival or cancellation from an earlier generation influences later invocations",
+  "C09": "the runtime is first sent SIGTERM and is killed only if still alive after 30% of the allowed time, every extension subscribed to SHUTDOWN receives exactly one SHUTDOWN event carrying the reason and deadline and is killed only if still alive at the deadline [...] The operation returns only after every process it started has been reaped (or after the fixed 2 s grace), never earlier",
+  "C10": "An invocation that arrives [...] while its reset is still in progress, is refused immediately with a client error [...] and never crashes the emulator",
+  "C11": "returns the cancellation error if the barrier was cancelled, which stays in force through re-arming until the barrier is cleared [...] No waiter stays blocked once its condition holds, and none returns before it does, for any number of concurrent waiters",
+  "C12": "next blocks until an invocation is available and, if repeated before responding, returns the same invocation; response or error is accepted once per invocation and only after next",
+  "C13": "Extension names are unique across internal and external extensions, at most ten extensions exist, only INVOKE and SHUTDOWN may be subscribed (SHUTDOWN only by external extensions) [...] Registration data returned (function name, version, handler, optional account id) equals what the platform was initialised with",
+  "C14": "one byte more is refused to the runtime with 413 and the caller instead receives a Function.ResponseSizeTooLarge error stating both sizes, after which the same environment keeps serving invocations without a reset",
+  "C15": "each dispatched invocation emits exactly one start and at most one runtime-done after it. A success status appears only if that step really succeeded [...] an error status carries the type of the first fault",
+  "C16": "overlaid, in this order, by unreserved platform defaults, credentials, reserved runtime variables and reserved platform variables [...] Extensions receive customer, credential and platform variables only, never names starting with '_' nor the X-Ray exclusions",
+  "C17": "A direct invoke request is validated against the reservation token [...] classified in the trailer as Complete, Oversized (exactly when longer than the per-request limit, cut one byte past it) or Truncated (on a copy error or reset) [...] the copy always terminates",
+  "C18": "with the runtime's sanitised error type if it reports a restore (or init) error [...] Temporary credentials are served only to requests bearing the per-instance token placed in the runtime's environment, are themselves not placed in that environment, and reflect the most recent restore",
+  "C19": "Every process started through the local supervisor produces exactly one termination event carrying its true exit status or terminating signal [...] succeeds for a process that already exited",
+  "C20": "anything else becomes Runtime.Unknown, or Function.Unknown if it starts with 'Function.' [...] error bodies themselves pass through untouched. The runtime identity string derived from the user agent and feature list never grows beyond 128 bytes through features and is fixed once features were appended",
+ },
 }
-CLAUSE_HINT = " For this assignment the violation must concern specifically THIS PART of the property (the rest of the property should keep holding): \"%s\". It must still need something specific to manifest."
+CLAUSE_HINT = " For this assignment the violation must concern specifically THIS PART of the property (the rest of the property should keep holding): \"%s\". Prefer a site that is not the most obvious one for it - a helper, an error or slow path, something two steps away. It must still need something specific to manifest."
 props = {}
 for l in open('/verif/properties.jsonl'):
     p = json.loads(l); props[p['id']] = p
